@@ -162,6 +162,18 @@ def run_case(kind, p):
                 ins = np.all((peaks - c >= 0) & (peaks + c <= np.array(shape)), axis=1)
                 a, b = tuple(np.asarray(x)[ins] for x in a), tuple(np.asarray(x)[ins] for x in b)
             msgs += same(a, b, f"{nm}, offset {p['offset']}")
+        # the same on integer detector counts kept in an unsigned dtype (counts + pedestal fit easily: < 2**15)
+        u0 = frame.astype(np.uint16) + np.uint16(p["offset"] % 7)
+        u1 = u0 + np.uint16(p["offset"])
+        for nm, runner in (("fast", impl.run_fast), ("full", run_full)):
+            a = runner(u0, pattern, peaks, b=p["b"])
+            b = runner(u1, pattern, peaks, b=p["b"])
+            f = runner(u0.astype(np.float32), pattern, peaks, b=p["b"])
+            if nm == "fast":
+                ins = np.all((peaks - c >= 0) & (peaks + c <= np.array(shape)), axis=1)
+                a, b, f = (tuple(np.asarray(x)[ins] for x in r_) for r_ in (a, b, f))
+            msgs += same(a, b, f"{nm}, uint16 frame, offset {p['offset']}")
+            msgs += same(a, f, f"{nm}, uint16 frame vs the same counts as float32")
     return msgs[:8]
 
 
